@@ -589,6 +589,25 @@ impl<K: El, V: El> Mon<K, V> {
                         viol!("C08", "keys()/values() order differs from iter() at position {i}");
                     }
                 }
+                // the same enumeration through internal iteration (fold / for_each / last / count)
+                let mut kf: Vec<(u64, u64)> = Vec::with_capacity(got.len());
+                self.map.keys().for_each(|kk| kf.push((kk.val(), kk.id())));
+                let vf: Vec<(u64, u64)> = self.map.values().fold(Vec::new(), |mut acc, v| {
+                    acc.push((v.val(), v.id()));
+                    acc
+                });
+                let mut pf: Vec<(u64, u64)> = Vec::with_capacity(got.len());
+                self.map.iter().for_each(|(kk, _)| pf.push((kk.val(), kk.id())));
+                if kf != ks || vf != vs || pf != ks {
+                    viol!("C08", "keys()/values()/iter() driven through for_each/fold enumerate in a different order than through next(): keys().for_each gives {:?}, values() by next() pairs with keys {:?}", abbreviate(&kf), abbreviate(&ks));
+                }
+                if self.map.iter().count() != got.len() || self.map.keys().count() != got.len() || self.map.values().count() != got.len() {
+                    viol!("C08", "count() of iter()/keys()/values() differs from the {} elements yielded by next()", got.len());
+                }
+                let last = self.map.iter().last().map(|(kk, v)| (kk.val(), kk.id(), v.val(), v.id()));
+                if last != got.last().copied() {
+                    viol!("C08", "iter().last() = {:?}, the last element yielded by next() is {:?}", last, got.last());
+                }
             }
             Keys => {
                 let mut it = m!(out, self.map.keys());
